@@ -483,7 +483,10 @@ def c10_solver_stream(chk, rng, tier):
     insts = []
     for i in range(60 if tier == "quick" else 600):
         r = rng.fork()
-        insts.append(gen_layered(r, nvars=r.range(4, 7), per_layer=r.range(2, 4), dom_max=r.range(2, 3), dominance=r.choice([1, 2]), rub=r.choice([0, 1, 3])))
+        if i % 3 == 2:
+            insts.append(gen_layered(r, nvars=r.range(5, 7), per_layer=r.range(3, 5), dom_max=2, depth_free=True, dominance=4, rub=r.choice([0, 3]), dead=False))
+        else:
+            insts.append(gen_layered(r, nvars=r.range(4, 7), per_layer=r.range(2, 4), dom_max=r.range(2, 3), dominance=r.choice([1, 2, 3]), rub=r.choice([0, 1, 3])))
     blocks = []
     for I in insts:
         lines = [I.line()]
